@@ -221,6 +221,24 @@ impl Data {
                 _ => unreachable!(),
             };
         }
+        // Un horario definido dos veces con el mismo nombre se queda con la última definición,
+        // igual que el resto de definiciones (que se guardan por nombre)
+        {
+            let key = |s: &systems::Schedule| match s {
+                systems::Schedule::Day(d) => (0u8, d.name.clone()),
+                systems::Schedule::Week(w) => (1u8, w.name.clone()),
+                systems::Schedule::Year(y) => (2u8, y.name.clone()),
+            };
+            let mut seen = std::collections::BTreeSet::new();
+            let mut unique: Vec<systems::Schedule> = Vec::with_capacity(schedules.len());
+            for sch in schedules.into_iter().rev() {
+                if seen.insert(key(&sch)) {
+                    unique.push(sch);
+                }
+            }
+            unique.reverse();
+            schedules = unique;
+        }
 
         // Componentes de la envolvente ===============
         // Necesita tener los constructions, floors y polygons ya resueltos
